@@ -21,6 +21,9 @@ ASSUMPTIONS = ["theorems are over the reals; binary64 rounding and numpy/libm ac
 TRUSTED = ["modelled not verified: numpy element-wise functions, CPython float arithmetic"]
 
 
+LEVEL_TEXT = ("Lean 4 theorem C03_diff_correct: for every formula tree, every point of the operators' domains and every measurement, the number derivative() computes is the HasDerivAt-derivative of the whole composed formula (per-operator rule lemmas over the tables regenerated from operations.py, lifted by induction); 0 for unrelated measurements, both operand positions of ** and two-argument log, degree variants. Tied to the code by the translator (tables + identity/dispatch structure) and a differential run incl. value changes, equal readings and injected faults.")
+
+
 def correspond(ctx):
     return X.run(ctx, "c03", ctx.n(300, 100000), gen_kwargs={"allow_repeated": True, "allow_revalue": True})
 
